@@ -102,6 +102,9 @@ def correspond(ctx, res):
         if model != impl:
             res.disagree(f"C01.{op}", arg, model, impl)
     res.sample({"correspondence": "secure", "input": "/a..a", "impl": _handler_secure("/a..a")})
+    # (c) the selector each protocol hands to the handlers, vs Model/Proto.parseRequest
+    import corr_parse
+    corr_parse.run(ctx, res, ctx.n(1500, 30000), "C01")
 
 
 ALLOWED_PREFIXES = None
